@@ -263,6 +263,19 @@ pub fn build_adts(profile2: u8, sfi: u8, channel_cfg: u8, protection_absent: boo
     f
 }
 
+/// Set the header fields that carry no framing information (private bit, original/copy, home,
+/// copyright bits, buffer fullness, number_of_raw_data_blocks_in_frame) from `x`. The framing
+/// rules (7/9-byte header per the protection flag, declared length) do not depend on them.
+pub fn scramble_adts_free_bits(f: &mut [u8], x: u64) {
+    if f.len() < 7 {
+        return;
+    }
+    f[2] = (f[2] & !0x02) | (((x & 1) as u8) << 1);
+    f[3] = (f[3] & !0x3c) | ((((x >> 1) & 0x0f) as u8) << 2);
+    f[5] = (f[5] & 0xe0) | (((x >> 5) & 0x1f) as u8);
+    f[6] = ((x >> 10) & 0xff) as u8;
+}
+
 // ---------------------------------------------------------------------------------------------
 // Opus
 // ---------------------------------------------------------------------------------------------
